@@ -21,6 +21,7 @@
 package engine
 
 import (
+	"fmt"
 	"go/ast"
 	"go/token"
 	"reflect"
@@ -259,6 +260,13 @@ func (r SliceDotsReplacer) Replace(d data.Data, cl Changelog, pos token.Pos) (re
 
 	result := reflect.MakeSlice(r.Type, len(items), len(items))
 	for i, item := range items {
+		// Elisions are paired by their position in the patch, so a "..." may
+		// have been paired with one that stood in a different kind of list.
+		if !item.Type().AssignableTo(r.Type.Elem()) {
+			return reflect.Value{}, fmt.Errorf(
+				`"..." in a list of %v is associated with a "..." that matched a list of %v`,
+				r.Type.Elem(), item.Type())
+		}
 		result.Index(i).Set(item)
 	}
 	return result, nil
